@@ -356,10 +356,10 @@ class Wildcard(PatternQuery):
         if text == "*":
             from whoosh.query import Every
             return Every(self.fieldname, boost=self.boost)
-        if "*" not in text and "?" not in text:
+        if "*" not in text and "?" not in text and "[" not in text:
             # If no wildcard chars, convert to a normal term.
             return Term(self.fieldname, self.text, boost=self.boost)
-        elif ("?" not in text and text.endswith("*")
+        elif ("?" not in text and "[" not in text and text.endswith("*")
               and text.find("*") == len(text) - 1):
             # If the only wildcard char is an asterisk at the end, convert to a
             # Prefix query.
